@@ -2,8 +2,10 @@ package rg
 
 import (
 	"fmt"
+	"go/token"
 	"go/types"
 	"regexp"
+	"sort"
 	"strings"
 
 	"golang.org/x/tools/go/ssa"
@@ -178,10 +180,22 @@ func (c *C) lockTransfer(report func(in ssa.Instruction, msg string)) func(in ss
 						report(in, fmt.Sprintf("release of %s %s(%s) that is not held on every path", e.Class, e.Mode, e.Key))
 					}
 				}
+			} else {
+				// a local closure whose body releases the lock(s) the function holds (unlock := func() {...}; called at
+				// every exit): the call releases what the body releases
+				for _, e := range c.closureReleases(x) {
+					if !release(s, e) && report != nil {
+						report(in, fmt.Sprintf("release (through a local closure) of %s %s(%s) that is not held on every path", e.Class, e.Mode, e.Key))
+					}
+				}
 			}
 		case *ssa.Defer:
 			if e := c.classifyLock(x); e != nil && !e.Acquire {
 				s[e.deferTok()] = true
+			} else if e == nil {
+				for _, e2 := range c.closureReleases(x) {
+					s[e2.deferTok()] = true
+				}
 			}
 		case *ssa.RunDefers:
 			for t := range s {
@@ -306,4 +320,101 @@ func renameIdents(s string, m map[string]string) string {
 		}
 		return id
 	})
+}
+
+// closureReleases: ci calls (or defers) a closure made in the same function -- directly or kept in a variable that is
+// assigned once -- whose body acquires nothing and releases locks in its entry block (before any branch): the release
+// events, with the keys translated from the closure's captured variables back to the caller's names.
+func (c *C) closureReleases(ci ssa.CallInstruction) []*lockEvent {
+	if ci.Common().IsInvoke() {
+		return nil
+	}
+	var mc *ssa.MakeClosure
+	switch v := ci.Common().Value.(type) {
+	case *ssa.MakeClosure:
+		mc = v
+	case *ssa.UnOp:
+		if al, ok := v.X.(*ssa.Alloc); ok && v.Op == token.MUL {
+			if sv := singleStore(al); sv != nil {
+				mc, _ = sv.(*ssa.MakeClosure)
+			}
+		}
+	}
+	if mc == nil {
+		return nil
+	}
+	fn, _ := mc.Fn.(*ssa.Function)
+	if fn == nil || len(fn.Blocks) == 0 {
+		return nil
+	}
+	if c.closureRelMemo == nil {
+		c.closureRelMemo = map[*ssa.MakeClosure][]*lockEvent{}
+	}
+	if r, ok := c.closureRelMemo[mc]; ok {
+		return r
+	}
+	c.closureRelMemo[mc] = nil
+	var evs []*lockEvent
+	for bi, b := range fn.Blocks {
+		for _, in := range b.Instrs {
+			call, ok := in.(ssa.CallInstruction)
+			if !ok {
+				continue
+			}
+			e := c.classifyLock(call)
+			if e == nil {
+				continue
+			}
+			if e.Acquire || bi != 0 {
+				return nil // acquires, or releases on some paths only: not a plain unlock closure
+			}
+			if _, isDefer := in.(*ssa.Defer); isDefer {
+				return nil
+			}
+			evs = append(evs, e)
+		}
+	}
+	if len(evs) == 0 {
+		return nil
+	}
+	// captured variable -> the caller's name of it
+	back := map[string]string{}
+	for i, fv := range fn.FreeVars {
+		if i >= len(mc.Bindings) {
+			continue
+		}
+		bnd := mc.Bindings[i]
+		if al, ok := bnd.(*ssa.Alloc); ok {
+			if sv := singleStore(al); sv != nil {
+				back["*free:"+fv.Name()] = canon(sv)
+			} else {
+				back["*free:"+fv.Name()] = "*" + al.Name()
+			}
+		}
+		back["free:"+fv.Name()] = canon(bnd)
+	}
+	var out []*lockEvent
+	for _, e := range evs {
+		k := e.Key
+		// longest names first, so that "*free:key" is replaced before "free:key"
+		names := make([]string, 0, len(back))
+		for n := range back {
+			names = append(names, n)
+		}
+		sort.Slice(names, func(i, j int) bool { return len(names[i]) > len(names[j]) })
+		for _, n := range names {
+			k = strings.ReplaceAll(k, n, back[n])
+		}
+		ne := *e
+		ne.Key = k
+		for i, el := range ne.Elems {
+			for _, n := range names {
+				el = strings.ReplaceAll(el, n, back[n])
+			}
+			ne.Elems[i] = el
+		}
+		out = append(out, &ne)
+	}
+	c.closureRelMemo[mc] = out
+	return out
 }
